@@ -173,7 +173,12 @@ pub fn run(ctx: &Ctx) -> CheckResult {
                 out.stats.nontrivial += 1;
             }
             match run_total(cfg, &ops, None) {
-                Ok(()) => true,
+                Ok(()) => {
+                    if ops.len() >= 4 {
+                        out.stats.sample(|| format!("{} ops=[{}] then Display, Debug, clone, serialize: all returned", cfg.descr(), ops_text(&ops)));
+                    }
+                    true
+                }
                 Err((step, phase)) => {
                     report(cfg, &ops, step, phase, &mut out, "exhaustive special-value sequence".into());
                     false
